@@ -60,6 +60,31 @@ func ruleR45(c *Ctx) {
 					}
 					r := ast.Unparen(m.throughLocals(u, as.Rhs[i]))
 					moved := false
+					// cursor = child, child a reference local that starts empty (var child nodeRef) and is
+					// only ever given a slot of the node: the cursor has moved to a child, or is the empty
+					// reference, on which the loop condition (cursor.pointer != nil) ends the descent
+					if v := identVar(info, r); v != nil && isRefVal(v.Type()) && !c.enclosingParam(u, v) {
+						defs := assignedExprs(info, u.Body, v)
+						allSlots := len(defs) > 0
+						for _, d := range defs {
+							isSlot := false
+							ast.Inspect(d, func(z ast.Node) bool {
+								if se, ok := z.(*ast.SelectorExpr); ok && se.Sel.Name == "children" {
+									isSlot = true
+								}
+								return true
+							})
+							if cl, ok := ast.Unparen(d).(*ast.CompositeLit); ok && len(cl.Elts) == 0 {
+								isSlot = true
+							}
+							if !isSlot {
+								allSlots = false
+							}
+						}
+						if allSlots {
+							moved = true
+						}
+					}
 					ast.Inspect(r, func(z ast.Node) bool {
 						switch y := z.(type) {
 						case *ast.SelectorExpr:
